@@ -266,7 +266,8 @@ def observe(C):
         try:
             obs["find"][s] = [sorted(FindInPaths(c0).find(s, as_sid=False)), sorted(FindInAll().find(s, as_sid=False)),
                               # reading through a search: one record per found entity that has a Getter, whatever is asked for
-                              len(list(GetFromAll().get(s, attributes=["a"]))), len(list(GetFromAll().get(s, sid_encode=lambda q: None)))]
+                              len(list(GetFromAll().get(s, attributes=["a"]))), len(list(GetFromAll().get(s, sid_encode=lambda q: None))),
+                              sorted(str(r.get("sid")) for r in GetFromAll().get(s))]
         except Exception as ex:  # noqa
             obs["find"][s] = "EXC " + type(ex).__name__ + " " + str(ex)[:60]
     root = C["prs"][c0].root()
@@ -299,7 +300,8 @@ def expected(C, model):
             typed_direct = [(sid.type, sid.string)]
         found_all = st.do_find("all", typed)[0]
         n_rec = len([x for x in found_all if C["ref"].natural(x)[0] not in st.sources])
-        exp["find"][s] = [sorted(st.do_find("paths", typed_direct)[0]), sorted(found_all), n_rec, n_rec]
+        exp["find"][s] = [sorted(st.do_find("paths", typed_direct)[0]), sorted(found_all), n_rec, n_rec,
+                          sorted(x for x in found_all if C["ref"].natural(x)[0] not in st.sources)]
     # tree inventory: entity paths, their ancestor folders, sidecars that hold data
     c0 = C["names"][0]
     root = C["prs"][c0].root()
